@@ -180,6 +180,7 @@ int __real_unlinkat(int, const char*, int);
 int __real_renameat(int, const char*, int, const char*);
 
 static int g_ncpu = 4;
+static FILE* g_ds_file = nullptr;   // the stream of the external data segment file, once opened for writing
 void __wrap_exit(int code) {
     if (sim::in_sut() && S) { S->via_exit = 1; child_finish(code); }
     __real_exit(code);
@@ -194,7 +195,9 @@ FILE* __wrap_fopen(const char* path, const char* mode) {
         int e = fault_for("fopen");
         if (e) { S->io_faults++; count_fault(e == EMFILE ? F_EMFILE : e == ENOSPC ? F_ENOSPC : F_EIO); errno = e; return nullptr; }
     } else S->fopen_r++;
-    return __real_fopen(path, mode);
+    FILE* fp = __real_fopen(path, mode);
+    if (w && fp) { const char* b = strrchr(path, '/'); b = b ? b + 1 : path; if (!strcmp(b, "datasegments")) g_ds_file = fp; }
+    return fp;
 }
 // a read that delivers less than the file size announced (I/O error in the middle, file shrank, size over-reported): the translator has to
 // give up with a diagnostic, not parse a partly filled or already released buffer
@@ -213,7 +216,10 @@ extern "C" size_t __wrap_fread(void* buf, size_t sz, size_t n, FILE* f) {
 // that reports success must have produced the complete output
 extern "C" size_t __real_fwrite(const void*, size_t, size_t, FILE*);
 extern "C" size_t __wrap_fwrite(const void* buf, size_t sz, size_t n, FILE* f) {
-    if (!sim::in_sut() || !sim::active() || f == stderr || f == stdout) return __real_fwrite(buf, sz, n, f);
+    // only the stream of the data segment file: that is the one output the translator writes with fwrite itself. (An optimising compiler
+    // turns many fputs/fprintf calls into fwrite calls as well; their results are not looked at anywhere in the translator, and a wrapper
+    // cannot set the stream's error indicator the way a real failed fputs would - outside what this fault can soundly judge.)
+    if (!sim::in_sut() || !sim::active() || f != g_ds_file || !f) return __real_fwrite(buf, sz, n, f);
     int e = fault_for("fwrite");
     if (!e) return __real_fwrite(buf, sz, n, f);
     size_t total = sz * n; if (total < 2) return __real_fwrite(buf, sz, n, f);
